@@ -144,8 +144,16 @@ def ppf_inverse(ctx, cls, dim):
     ctx.require(ctx.And(ctx.gt(u, 1e-6), ctx.lt(u, 1)))
     r = ctx.real("r", lo=0.05, hi=3.0)
     ctx.require(ctx.gt(r, 0))
-    q = mod.spectral_rad_ppf(u)
+    try:
+        q = mod.spectral_rad_ppf(u)
+    except symrun.Unsupported as e:
+        if "non-finite constant" not in str(e):
+            raise
+        # the real code produced inf for some u < 1 (the inverse of the cdf is finite on [0, 1))
+        ctx.ensure("ppf-finite-on-[0,1)", False)
+        ctx.done()
     q = q.item() if isinstance(q, np.ndarray) else q
+    ctx.ensure("ppf-finite-on-[0,1)", bool(np.isfinite(q)) if ctx.mode == "conc" else True)
     ctx.ensure("ppf>=0", ctx.ge(q, 0))
     back = mod.spectral_rad_cdf(q)
     back = back.item() if isinstance(back, np.ndarray) else back
@@ -465,3 +473,27 @@ def hankel_convention(ctx, hist, dim):
 # the Integral / TPL densities use tools.special.inc_gamma_low: its dispatch and values (bounded, mpmath)
 from contracts import special_fn  # noqa: E402
 special_fn.register(P)
+
+
+
+@contract(P, "models.spectral_rad_ppf/finite-inverse-up-to-the-end-of-the-unit-interval",
+          params=[{"cls": c, "dim": d} for c in ("Gaussian", "Exponential") for d in (1, 2)],
+          functions=["covmodel/models.py:<cls>.spectral_rad_ppf", "covmodel/models.py:<cls>.spectral_rad_cdf"],
+          bounded="native run: u = 1 - 10^-k, k = 2 .. 15, and 0; tolerance 1e-12 (1e-9 relative in 1 - u)")
+def ppf_end(ctx, cls, dim):
+    """the generators draw u uniformly from [0, 1) and use ppf(u) as wave number: it has to be finite there and the
+    inverse of the cdf also close to 1 (a guard against u = 1 must not swallow a neighbourhood of it)"""
+    ok = True
+    with symrun.native():
+        mod = getattr(gs, cls)(dim=dim, len_scale=1.7)
+        for k in range(2, 16):
+            u = 1.0 - 10.0 ** (-k)
+            q = float(np.asarray(mod.spectral_rad_ppf(np.array([u]))).ravel()[0])
+            back = float(np.asarray(mod.spectral_rad_cdf(np.array([q]))).ravel()[0]) if np.isfinite(q) else np.nan
+            if not (np.isfinite(q) and abs((1.0 - back) - (1.0 - u)) <= 1e-12 + 1e-9 * (1.0 - u)):
+                ok = False
+                if ctx.mode == "conc":
+                    ctx.results.setdefault("first-deviation", repr((u, q, back)))
+        q0 = float(np.asarray(mod.spectral_rad_ppf(np.array([0.0]))).ravel()[0])
+        ok = ok and q0 == 0.0
+    ctx.ensure("ppf-finite;cdf(ppf(u))=u-near-1;ppf(0)=0", ok)
